@@ -348,3 +348,54 @@ def text_facts(fn: ast.AST, node: ast.AST) -> list[tuple[str, bool]]:
             seen.add(x)
             out.append(x)
     return out
+
+
+def range_bounds(facts: list[tuple[str, bool]], var: str) -> tuple[bool, set[str]]:
+    """What the guard facts say about an index variable: (known >= 0, set of texts X with `var <= X` known).
+    Recognises both spellings and polarities of the comparisons, chained comparisons and `var in range(X)`."""
+    import re as _re
+
+    nonneg = False
+    upper: set[str] = set()
+    v = _re.escape(var)
+    for txt, pol in facts:
+        try:
+            e = ast.parse(txt, mode="eval").body
+        except SyntaxError:
+            continue
+        if isinstance(e, ast.Compare) and isinstance(e.ops[0], ast.In) and len(e.ops) == 1 and unparse(e.left) == var:
+            c = e.comparators[0]
+            if pol and isinstance(c, ast.Call) and unparse(c.func) == "range" and len(c.args) == 1:
+                nonneg = True
+                a = unparse(c.args[0])
+                upper.add(a[:-4] if a.endswith(" + 1") else f"{a} - 1")
+            continue
+        if not isinstance(e, ast.Compare):
+            continue
+        terms = [e.left] + list(e.comparators)
+        pairs = [(terms[i], e.ops[i], terms[i + 1]) for i in range(len(e.ops))]
+        if len(pairs) > 1 and not pol:
+            continue  # a false chained comparison is a disjunction
+        for l, op, r in pairs:
+            lt, rt = unparse(l), unparse(r)
+            # normalise to  var OP other
+            if rt == var and lt != var:
+                flip = {ast.Lt: ast.Gt, ast.LtE: ast.GtE, ast.Gt: ast.Lt, ast.GtE: ast.LtE}
+                if type(op) not in flip:
+                    continue
+                lt, rt, op = rt, lt, flip[type(op)]()
+            if lt != var:
+                continue
+            k = type(op)
+            if not pol:
+                neg = {ast.Lt: ast.GtE, ast.LtE: ast.Gt, ast.Gt: ast.LtE, ast.GtE: ast.Lt}
+                if k not in neg:
+                    continue
+                k = neg[k]
+            if k is ast.GtE and rt == "0" or k is ast.Gt and rt == "-1":
+                nonneg = True
+            elif k is ast.LtE:
+                upper.add(rt)
+            elif k is ast.Lt:
+                upper.add(rt[:-4] if rt.endswith(" + 1") else f"{rt} - 1")
+    return nonneg, upper
